@@ -351,7 +351,11 @@ def run_function(case, ctx):
     if exact:
         ctx.check(lib.pts_equal_exact(o.value, (want,)), f"function:value:{fam or 'default'}", f"Integrate.function = {o.value} but exact integral = {want}")
     else:
-        ctx.check(lib.pts_close(o.value, (want,), 1e-9), f"function:value:{fam or 'default'}", f"Integrate.function = {o.value} but exact integral = {float(want)}")
+        # a float quadrature is accurate relative to the size of what it adds up (sum of |c_k| |u|^k times the interval
+        # length), not to a result that may be small by cancellation
+        big = max(abs(br[0]), abs(br[-1]), 1)
+        mag = float(sum(abs(ck) * big ** i for c in coefs for i, ck in enumerate(c)) * (br[-1] - br[0]))
+        ctx.check(lib.pts_close(o.value, (want,), 1e-9, mag), f"function:value:{fam or 'default'}", f"Integrate.function = {o.value} but exact integral = {float(want)}")
 
 
 def run_lenght(case, ctx):
